@@ -1,7 +1,7 @@
 """Stage-level conformance (binding C): recorded hook events -> PipelineTrace events."""
 from . import common
 
-MODELLED = set(" -~|:!+.',`_=/\\()")
+MODELLED = set(" -~|:!+.',`_=/\\()><^vV")
 
 
 class Inexact(Exception):
@@ -27,6 +27,8 @@ def frag(fs):
         return {"k": "L", "s": pt(f["s"]), "e": pt(f["e"]), "b": f["b"], "cells": cells}
     if k == "arc":
         return {"k": "A", "s": pt(f["s"]), "e": pt(f["e"]), "r": L8(f["r"]), "sw": f["sweep"], "mj": f["major"], "cells": cells}
+    if k == "polygon":
+        return {"k": "P", "pts": [pt(p) for p in f["pts"]], "cells": cells}
     if k == "circle":
         return {"k": "C", "c": pt(f["c"]), "r": L8(f["r"]), "cells": cells}
     if k == "rect":
